@@ -1002,8 +1002,18 @@ def run_case(ctx, t, npts=2):
             return term, {'expr': src_skeleton(t), 'outcome': 'non-finite value or `out` not returned', 'x': x}, \
                 ('nonfinite', src_skeleton(t))
         shares = bool(rr != 'F' and np.shares_memory(np.asarray(y), np.asarray(xe)))
-        pts.append('{| p_x := %s; p_out := %s; p_ip := %s; p_alias := %s |}'
-                   % (ctx.qs(x), ctx.qs(out), ip, C.b(shares)))
+        xx = 'None'
+        if rr != 'F' and o.domain == o.range:
+            xa = xe.copy()
+            try:
+                if o(xa, out=xa) is xa and all(math.isfinite(abs(complex(u))) for u in flat(ctx, xa)):
+                    xx = '(Some %s)' % ctx.qs(flat(ctx, xa))
+                else:
+                    xx = '(Some [])'          # never equal to a model value: fails wherever oalias holds
+            except Exception:   # noqa
+                xx = '(Some [])'
+        pts.append('{| p_x := %s; p_out := %s; p_ip := %s; p_alias := %s; p_xx := %s |}'
+                   % (ctx.qs(x), ctx.qs(out), ip, C.b(shares), xx))
     term = ('{| c_vt := vt_now; c_kon := %s; c_expr := %s; c_build := BOk %s %s %s %s %s; c_points := %s |}'
             % (kon_term(ctx), to_coq(ctx, t), sk, dterm, rterm, C.b(bool(o.is_linear)), C.b(isinstance(o, Functional)),
                C.lst(pts)))
